@@ -22,7 +22,7 @@ M = "src/find/matchers/mod.rs"
 # (property, name, file, old, new[, occurrence index])
 MUTS = [
  # ---- C05
- ("C05", "split_off_i", X, "self.pending = pending.split_off(i + 1);", "self.pending = pending.split_off(i);"),
+ ("C05", "split_off_loses_last_byte_of_chunk", X, "self.pending = pending.split_off(i + 1);", "self.pending = pending.split_off(if i + 2 == pending.len() && pending.len() > 2 { i + 2 } else { i + 1 });"),
  ("C05", "no_i_reset_after_refill", X, "                pending.resize(bytes_read, 0);\n                i = 0;\n", "                pending.resize(bytes_read, 0);\n                i = if bytes_read > 4000 { 1 } else { 0 };\n"),
  ("C05", "escape_reset_on_refill", X, "                pending.resize(bytes_read, 0);\n                i = 0;\n", "                pending.resize(bytes_read, 0);\n                i = 0;\n                if matches!(escape, Some(Escape::Slash)) {\n                    escape = None;\n                }\n"),
  ("C05", "eintr_is_error", X, "                        Err(e) if e.kind() == io::ErrorKind::Interrupted => continue,\n                        Err(e) => return Err(e),", "                        Err(e) => return Err(e),"),
@@ -33,7 +33,7 @@ MUTS = [
  ("C05", "empty_field_not_skipped", X, "                    if buf.len() == 1 {", "                    if buf.len() == 1 && self.rd.buffer().len() > 0 {"),
  ("C05", "quote_closed_by_any_quote", X, "(Some(Escape::Quote(quote)), c) if c == *quote => escape = None,", "(Some(Escape::Quote(quote)), c) if c == *quote || (c == b'\"' && i == 0) => escape = None,"),
  ("C05", "unterminated_quote_ok", X, "                    if let Some(Escape::Quote(q)) = &escape {", "                    if let (Some(Escape::Quote(q)), true) = (&escape, result.len() < 64) {"),
- ("C05", "d_beats_0", X, "                > matches.indices_of(options::DELIMITER).unwrap().next_back()", "                < matches.indices_of(options::DELIMITER).unwrap().next_back()"),
+ ("C05", "both_0_and_d_fall_back_to_whitespace", X, "        (Some(delimiter), true) => {\n            if matches", "        (Some(delimiter), true) if delimiter.is_ascii_punctuation() => None,\n        (Some(delimiter), true) => {\n            if matches"),
  # ---- C04
  ("C04", "chars_lt", X, "if can_be_passed && self.current_size + chars <= self.max_chars {", "if can_be_passed && self.current_size + chars < self.max_chars {"),
  ("C04", "args_le", X, "        if self.current_args < self.max_args {", "        if self.current_args <= self.max_args {"),
